@@ -1,1 +1,10 @@
 // root-level harnesses (pub(crate) items only)
+#![allow(unused_imports)]
+use super::*;
+use crate::verif_common::*;
+
+#[cfg(test)]
+mod playback {
+    use super::*;
+    include!("/verif/.build/playback/root.rs");
+}
